@@ -3,6 +3,7 @@ import BddVerif.Lemmas.ExactWalkC07
 import BddVerif.Lemmas.ExactWalkC04
 import BddVerif.Lemmas.ExactWalkC07Complete
 import BddVerif.Lemmas.ExactWalkC04Complete
+import BddVerif.Lemmas.ExactWalkC17Complete
 /-! axiom audit: soundness of the drivers' exact memoised walks (Lemmas/ExactWalkC17.lean, ExactWalkC07.lean, ExactWalkC04.lean) -/
 #print axioms B.ExactWalk.forIn_inv_eq
 #print axioms B.ExactWalk.Loc.mono
@@ -79,3 +80,19 @@ open B B.Drive B.ExactWalk in
 #print axioms B.ExactWalk.walk3_reject
 #print axioms B.ExactWalk.walk3_complete
 #print axioms B.ExactWalk.walk3_complete_driver
+/-! C17 reject direction (ExactWalkC17Complete.lean) -/
+#print axioms B.ExactWalk.forIn_range'_inv
+#print axioms B.ExactWalk.forIn_range'_inv_eq
+#print axioms B.ExactWalk.rstep
+#print axioms B.ExactWalk.bstep
+#print axioms B.ExactWalk.vb_ne
+#print axioms B.ExactWalk.sameFunctionUnder_reject
+#print axioms B.ExactWalk.sameFunctionUnder_reject_wfoB
+/-! false alarms of the walk for renamings that are not increasing on the support: equal functions (proved in
+    ExactWalkC17Complete.lean), valid reduced arrays, answer `false` twice -/
+open B B.Drive B.ExactWalk in
+#eval C17.sameFunctionUnder ex17B ex17B ex17Swap
+open B B.Drive B.ExactWalk in
+#eval C17.sameFunctionUnder ex17B ex17R3 ex17Merge
+open B B.Drive B.ExactWalk in
+#eval (isReduced ex17B, isReduced ex17R3)
